@@ -4,9 +4,9 @@
    `local v1, .., vn = e1, .., em` is emitted into TWO buffers: statements added to `emitter` come
    out first, the statements collected in its fork `defemitter` are appended at the end
    (`emitter:add(defemitter)`).  For every (variable, value) pair of izipargnodes, in order:
-     - first result of a trailing multiple-return call:  `T _asgnret = call;`      -> emitter   (today)
+     - first result of a trailing multiple-return call:  `T _asgnret = call;`      -> emitter until /repo f54f9c0, now defemitter
      - variable kept (pragmas.nodce or is_used):           `T v = value;`            -> defemitter
-     - variable dropped by dead code elimination, value evaluated at run time:  `value;` -> emitter (today)
+     - variable dropped by dead code elimination, value evaluated at run time:  `value;` -> emitter until /repo d685d37, now defemitter
    Which buffer the first and the third kind go to is a parameter (scraped into Gen.v), so the
    theorems are about every placement and name the ones that keep the source order.
    No world assumption: plain lists. *)
